@@ -30,7 +30,7 @@ def judge(case, drv, reports=None):
     font = cases.font_bytes(case)
     fid = drv.put_font(font)
     cached = 0x80 if case['kind'] == 'shipped' else 0
-    key = case.get('font') or json.dumps(case['spec'], sort_keys=True)
+    key = case.get('font') or json.dumps(case.get('spec') or case.get('cmap'), sort_keys=True)
     try:
         ref = cases.shape(drv, fid, case, src=cached | 0, opts=0)
         if not ref.get('face'):
@@ -98,7 +98,37 @@ def worker(ctx):
                      shipped=case['kind'] == 'shipped', synthesised=case['kind'] == 'spec', rule_fired=nt, seg_null=not r.get('seg'))
         return t
 
-    ctx.run_hypothesis(make, ctx.n(9600, 160000) // ctx.nworkers + 1, chunk=25, replay_fn=replay_case)
+    # fonts with generated cmaps (format 4 + format 12, boundary code points): the cmap-caching option must not change lookups
+    import props.c13 as c13
+    from hypothesis import strategies as st
+
+    @st.composite
+    def cmap_case(draw):
+        c = draw(c13.cmap_strategy())
+        pts = [0x10000, 0x10001, 0xFFFF, 0xFFFE, 0x10FFFF, 1, 2]
+        for t in c['f4']:
+            for sg in t['segs'][:6]:
+                pts += [sg[0], sg[1]]
+        if c.get('f12'):
+            for g in c['f12']['groups'][:6]:
+                pts += [g[0], g[1]]
+        txt = [p for p in draw(st.lists(st.sampled_from(pts), min_size=1, max_size=8)) if p]
+        return dict(kind='cmap', cmap=c, text=txt, dir=draw(st.integers(0, 1)), enc=draw(st.sampled_from([1, 2, 4])), feats=[])
+
+    def make_cmap(deco):
+        @deco
+        @given(cmap_case())
+        def t(case):
+            r = judge(case, drv, None)
+            rec.evaluations += len(CONFIGS) - 1
+            nt = bool(r.get('seg')) and any(s['g'] for s in r['dump']['slots'])
+            rec.case(nontrivial_sig=json.dumps(case, sort_keys=True) if nt else None, sample=dict(font='generated cmap', text=case['text'], configs=16) if nt else None,
+                     cmap_font=1, cmap_font_astral=any(c > 0xFFFF for c in case['text']))
+        return t
+
+    n = ctx.n(9600, 160000) // ctx.nworkers + 1
+    ctx.run_hypothesis(make, n, chunk=25, replay_fn=replay_case)
+    ctx.run_hypothesis(make_cmap, n // 4, chunk=25, replay_fn=replay_case)
     rec.count('fonts_with_report_compared_across_16_configs', len(reports))
     try:
         drv.stop()
